@@ -31,7 +31,8 @@
 
 static int32_t count_leaves(const parquet_schema_element_t* elements, int32_t count) {
     int32_t leaves = 0;
-    for (int32_t i = 0; i < count; i++) {
+    /* Element 0 is the root group: it is never a column, even without children */
+    for (int32_t i = 1; i < count; i++) {
         if (elements[i].num_children == 0) {
             leaves++;
         }
